@@ -559,6 +559,60 @@ End PModel.
 End Model.
 
 (* ---------------------------------------------------------------------------------------------- *)
+(* memoisation keyed by descriptors (functools.lru_cache on merge_record_descriptors and, through it, extend_record and
+   iter_timestamped_records; RecordFieldRewriter.record_descriptor_for_fields): a cached call returns the stored
+   result of an EQUAL key.  Key equality of descriptors is RecordDescriptor.__eq__; its shape is a GENERATED fact. *)
+Definition dkey : Type := string * list (string * string).        (* descriptor = (name, fields (name, typename)) *)
+(* the string the 32-bit identifier is computed from: name, then field name ++ typename for every field *)
+Definition ident_input (d : dkey) : string :=
+  String.append (fst d) (fold_right (fun f acc => String.append (fst f) (String.append (snd f) acc)) "" (snd d)).
+Definition desc_eqb (a b : list (string * string)) : bool :=
+  (fix go (x y : list (string * string)) : bool :=
+     match x, y with
+     | [], [] => true
+     | e :: x', f :: y' => String.eqb (fst e) (fst f) && String.eqb (snd e) (snd f) && go x' y'
+     | _, _ => false
+     end) a b.
+Definition dkey_eqb (structural : bool) (a b : dkey) : bool :=
+  if structural then String.eqb (fst a) (fst b) && desc_eqb (snd a) (snd b)
+  else String.eqb (ident_input a) (ident_input b).       (* equality of identifiers, at best *)
+Fixpoint dkeys_eqb (structural : bool) (a b : list dkey) : bool :=
+  match a, b with
+  | [], [] => true
+  | x :: a', y :: b' => dkey_eqb structural x y && dkeys_eqb structural a' b'
+  | _, _ => false
+  end.
+(* the key of merge_record_descriptors: (descriptors, replace, name) *)
+Definition mkey : Type := list dkey * (bool * option string).
+Definition mkey_eqb (structural : bool) (a b : mkey) : bool :=
+  dkeys_eqb structural (fst a) (fst b) && Bool.eqb (fst (snd a)) (fst (snd b)) &&
+  match snd (snd a), snd (snd b) with
+  | Some x, Some y => String.eqb x y
+  | None, None => true
+  | _, _ => false
+  end.
+
+Section Cache.
+Context {K R : Type}.
+Variable keq : K -> K -> bool.
+Variable f : K -> R.
+Fixpoint cache_find (k : K) (c : list (K * R)) : option R :=
+  match c with
+  | [] => None
+  | e :: t => if keq k (fst e) then Some (snd e) else cache_find k t
+  end.
+(* a sequence of calls through the cache: the results, in order *)
+Fixpoint run_cached (c : list (K * R)) (ks : list K) : list R :=
+  match ks with
+  | [] => []
+  | k :: t => match cache_find k c with
+              | Some v => v :: run_cached c t
+              | None => f k :: run_cached ((k, f k) :: c) t
+              end
+  end.
+End Cache.
+
+(* ---------------------------------------------------------------------------------------------- *)
 (* concrete values for running the model on observations (correspondence check) and for witnesses  *)
 From Coq Require Import NArith.
 Inductive val := VNone | VTok (id : N) | VName (s : string).
